@@ -111,6 +111,18 @@ pub fn check(rep: &Report) {
         stats.lock().unwrap().merge(&st);
         crate::engine::crumb::clear();
     });
+    {
+        // a 7.3 MB stream: 113 FAT sectors in a 512-byte-sector file, i.e. one DIFAT sector of which only the first 4 slots are
+        // used (the rest is FREESECT); 2 FAT sectors and no DIFAT sector with 4096-byte sectors
+        crate::engine::crumb::set_job("C13 sizes=[7300000, 100]");
+        let big = vec![7_300_000usize, 100];
+        let mut st = Stats::default();
+        let mut local = vec![];
+        explore_deviations(|ch| run_case(rep, ch, &big, &mut local, false), 1, &mut st);
+        rep.cases_bulk(&local);
+        stats.lock().unwrap().merge(&st);
+        crate::engine::crumb::clear();
+    }
     if t {
         // one large stream: > 109 FAT sectors in v3 => DIFAT chain
         crate::engine::crumb::set_job("C13 sizes=[15334400, 100]");
